@@ -36,7 +36,8 @@ func (g *c15Gen) atom(tag string) *c15T {
 		l := 3 + verifChoice(tag+".symlen", 4)
 		name := verifString("ident", l)
 		for i := 0; i < l; i++ {
-			verifAssume(name[i] >= 'a' && name[i] <= 'z')
+			verifAssume(name[i] >= 'a')
+			verifAssume(name[i] <= 'z')
 		}
 		// reference classification on the same bytes
 		gotxt := name
